@@ -46,6 +46,7 @@ from lv.core.runner import Result
 from lv.core.runner import exc_bucket
 from lv.gen.printer import to_source
 from lv.harness.envs import make_env
+from lv.harness.envs import run_coro
 
 import liquid2.output as _lq_output
 from liquid2 import CachingDictLoader
@@ -851,6 +852,21 @@ class C06(Prop):
                          program_case(), program_case(), graph_case())
 
     def enumerate(self, tier: str, disabled: frozenset[str]):
+        parts = {"brk": "b{% break %}", "cnt": "c{% continue %}", "loop5": "{% for k in (1..5) %}z{% endfor %}",
+                 "brk_if": "{% if x == 2 %}{% break %}{% endif %}i"}
+        literal = [
+            ("include-for-break", "{% for i in (1..3) %}{% include 'brk' for xs %}{% endfor %}{% for j in (1..4) %}x{% endfor %}", 6),
+            ("include-for-continue", "{% for i in (1..2) %}{% include 'cnt' for xs %}y{% endfor %}{% for j in (1..5) %}x{% endfor %}", 5),
+            ("include-for-break-then-render", "{% for i in (1..2) %}{% include 'brk' for xs %}{% endfor %}{% render 'loop5' %}", 5),
+            ("include-for-break-then-include", "{% for i in (1..2) %}{% include 'brk_if' for xs as x %}{% endfor %}{% include 'loop5' %}", 5),
+            ("tablerow-break", "{% for i in (1..3) %}{% tablerow r in xs %}{% break %}{% endtablerow %}{% endfor %}{% for j in (1..5) %}x{% endfor %}", 6),
+            ("render-for-then-loop", "{% for i in (1..2) %}{% render 'loop5' for xs %}{% endfor %}{% for j in (1..7) %}x{% endfor %}", 20),
+            ("for-break-then-loop", "{% for i in (1..3) %}{% for j in xs %}{% break %}{% endfor %}{% endfor %}{% for j in (1..6) %}x{% endfor %}", 6),
+        ]
+        for name, src, need in literal:
+            for mode in ("sync", "async"):
+                yield {"kind": "literal", "name": name, "src": src, "templates": parts, "data": {"xs": [1, 2]},
+                       "need": need, "mode": mode}
         for n in (1, 2, 3):
             pairs = [(i, j) for i in range(n) for j in range(n)]
             for mask in range(1 << len(pairs)):
@@ -874,6 +890,8 @@ class C06(Prop):
     def sample(self, case: Any) -> Any:
         if case["kind"] == "graph":
             return case
+        if case["kind"] == "literal":
+            return {"main": case["src"][:300], "partials": sorted(case["templates"])}
         return {"main": to_source(case["prog"]["main"])[:300], "partials": sorted(case["prog"]["templates"])}
 
     # ------------------------------------------------------------------ running
@@ -926,9 +944,49 @@ class C06(Prop):
         res.evaluations = 0
         if case["kind"] == "graph":
             self._check_graph(case, res)
+        elif case["kind"] == "literal":
+            self._check_literal(case, res)
         else:
             self._check_prog(case, disabled, res)
         return res
+
+    def _check_literal(self, case: dict[str, Any], res: Result) -> None:
+        """Hand-written programs whose largest loop nest is known: loop_iteration_limit = need must not change
+        the render, need - 1 must raise.  (Loops that are LEFT through break / continue must not leave anything
+        behind in the accounting of the loops that follow.)"""
+        res.nontrivial = True
+        need = case["need"]
+        ctxt = f"src={case['src']!r} templates={case['templates']!r} need={need}"
+
+        def run(limit: int | None) -> tuple[str, str]:
+            env = make_env(case["templates"], limits={"loop_iteration_limit": limit} if limit else None)
+            try:
+                t = env.from_string(case["src"])
+                if case.get("mode") == "async":
+                    return ("ok", run_coro(t.render_async(**case["data"])))
+                return ("ok", t.render(**case["data"]))
+            except LiquidError as err:
+                return ("err", type(err).__name__)
+
+        base = run(None)
+        res.evaluations += 1
+        if base[0] != "ok":
+            res.labels.append("literal:error-without-limit")
+            return
+        for lim in (need, need + 1, need * 3):
+            got = run(lim)
+            res.evaluations += 1
+            if got != base:
+                res.fail("loop", f"loop:spurious-limit:{case['name']}",
+                         f"loop_iteration_limit={lim} (the largest nest runs {need} iterations): {got!r} instead of "
+                         f"{base!r}; {ctxt}")
+                return
+        if need > 1:
+            got = run(need - 1)
+            res.evaluations += 1
+            if got != ("err", "LoopIterationLimitError"):
+                res.fail("loop", f"loop:limit-not-enforced:{case['name']}",
+                         f"loop_iteration_limit={need - 1} below the largest nest ({need}): {got!r}; {ctxt}")
 
     def _diff_bucket(self, family: str, out: str, base: str) -> str:
         # universal-newline translation happens per write(): "q\r" + "\nz" becomes "q\n\nz", so the
